@@ -519,6 +519,11 @@ class Engine:
             return False
         if t.startswith('{alloc') or t.startswith('tracing::') or 'CALLSITE' in t:
             return Opaque('static', t)
+        segs_ = strip_generics(t.replace('ZeroSized: ', '')).split('::')
+        if len(segs_) >= 2 and re.fullmatch(r'\w+', segs_[-1]):
+            vs_ = self.prog.enum_variants('::'.join(segs_[:-1])) if self.prog is not None else None
+            if vs_ is not None and segs_[-1] in vs_:
+                return Adt(segs_[-2], vs_.index(segs_[-1]), segs_[-1], [])
         if t.startswith('ZeroSized: {closure@'):
             return Closure(t[len('ZeroSized: '):], [])
         if t.startswith('ZeroSized: '):
